@@ -254,6 +254,9 @@ impl ECMAScriptDatamodel {
                 // Pretty print the error
                 let msg = format!("Script Error:  {} => {} ", script, e);
                 error!("{}", msg);
+                if handle_error {
+                    self.internal_error_execution();
+                }
                 Err(msg)
             }
         }
@@ -736,6 +739,7 @@ impl Datamodel for ECMAScriptDatamodel {
             }
             Err(e) => {
                 self.log(&e.to_string());
+                self.internal_error_execution();
                 false
             }
         }
